@@ -136,11 +136,14 @@ fn ztail_case(k: u64) -> Case {
 /// Third enumeration: sequences of byte *tokens* — valid characters that look like the
 /// decoder's own output (U+FFFD), valid multi-byte characters, and malformed pieces — so that
 /// "valid U+FFFD next to a malformation", "valid CJK next to a truncated sequence" etc. occur.
-pub const BYTE_TOKENS: [&[u8]; 10] = [
+pub const BYTE_TOKENS: [&[u8]; 14] = [
     b"A", b"\n", b": ", &[0xEF, 0xBF, 0xBD], &[0xE4, 0xB8, 0xAD], &[0xF0, 0x9F, 0x98, 0x80], &[0x80], &[0xC3], &[0xFF], &[0xE4, 0xB8],
+    // every other character some definition calls a line end (positions derived from the text)
+    b"\r", &[0xE2, 0x80, 0xA8], &[0xE2, 0x80, 0xA9], &[0xC2, 0x85],
 ];
+const NBT: u64 = BYTE_TOKENS.len() as u64;
 pub fn byte_token_count() -> u64 {
-    (1..=4u32).map(|k| 10u64.pow(k)).sum::<u64>() * 4 * 2
+    (1..=4u32).map(|k| NBT.pow(k)).sum::<u64>() * 4 * 2
 }
 fn byte_token_case(k: u64) -> Case {
     let trap = TRAPS[(k % 4) as usize];
@@ -149,7 +152,7 @@ fn byte_token_case(k: u64) -> Case {
     let mut i = k / 2;
     let mut len = 1usize;
     loop {
-        let n = 10u64.pow(len as u32);
+        let n = NBT.pow(len as u32);
         if i < n {
             break;
         }
@@ -158,8 +161,8 @@ fn byte_token_case(k: u64) -> Case {
     }
     let mut bytes = vec![b'k'];
     for _ in 0..len {
-        bytes.extend_from_slice(BYTE_TOKENS[(i % 10) as usize]);
-        i /= 10;
+        bytes.extend_from_slice(BYTE_TOKENS[(i % NBT) as usize]);
+        i /= NBT;
     }
     if utf16 {
         // the same token sequence as UTF-16LE: valid tokens become their UTF-16 form, malformed
@@ -174,6 +177,12 @@ fn byte_token_case(k: u64) -> Case {
                 (vec![0xFFFD], 3)
             } else if bytes[j..].starts_with(&[0xE4, 0xB8, 0xAD]) {
                 (vec![0x4E2D], 3)
+            } else if bytes[j..].starts_with(&[0xE2, 0x80, 0xA8]) {
+                (vec![0x2028], 3)
+            } else if bytes[j..].starts_with(&[0xE2, 0x80, 0xA9]) {
+                (vec![0x2029], 3)
+            } else if bytes[j..].starts_with(&[0xC2, 0x85]) {
+                (vec![0x0085], 2)
             } else if bytes[j..].starts_with(&[0xF0, 0x9F, 0x98, 0x80]) {
                 (vec![0xD83D, 0xDE00], 4)
             } else if b == 0x80 {
@@ -894,6 +903,29 @@ impl Res {
     }
 }
 
+/// Equality of results, except that the wording of a decode error is the library's business:
+/// the property asks for *a decode error*. What must hold of the message: a message the callback
+/// supplied is carried, and if the message starts its numbers with a byte offset (as the pinned
+/// wording does) that offset is the reference decoder's.
+fn results_agree(got: &Res, want: &Res) -> bool {
+    match (got, want) {
+        (Res::Decode(g), Res::Decode(w)) => {
+            if w == "trap says no" {
+                return g.contains(w.as_str());
+            }
+            let first_int = |s: &str| -> Option<u64> {
+                let d: String = s.chars().skip_while(|c| !c.is_ascii_digit()).take_while(char::is_ascii_digit).collect();
+                d.parse().ok()
+            };
+            match (first_int(g), first_int(w)) {
+                (Some(a), Some(b)) => a == b,
+                _ => true,
+            }
+        }
+        _ => got == want,
+    }
+}
+
 fn load_direct(text: &str) -> Res {
     match Yaml::load_from_str(text) {
         Ok(d) => Res::Docs(format!("{d:?}")),
@@ -1045,7 +1077,7 @@ pub fn execute(case: &Case, record_seed: Option<u64>) -> Outcome {
                         "WRONG-RESULT(callback-count)".into(),
                         format!("callback invoked {} times, reference decoder expects {n_calls}", calls.len()),
                     ))
-                } else if res != want {
+                } else if !results_agree(&res, &want) {
                     Some((
                         "WRONG-RESULT(fault-injecting)".into(),
                         format!(
